@@ -23,9 +23,9 @@ what the rules see is equivalent to the file on disk.  Code that a change really
 refactoring shape and is analysed as written.  HSA_NO_NORMALIZE=1 switches the pass off.
 """
 import ast
-import copy
 import hashlib
 import os
+import re
 
 from . import canon
 
@@ -33,14 +33,24 @@ _SIMPLE = (ast.Name, ast.Attribute, ast.Constant)
 
 
 def comp_fingerprint(node):
-    t = copy.deepcopy(node)
-    for n in ast.walk(t):
-        if isinstance(n, ast.Name):
-            n.id = "_"
-        for a in ("lineno", "col_offset", "end_lineno", "end_col_offset"):
-            if hasattr(n, a):
-                setattr(n, a, 0)
-    return hashlib.sha1(ast.dump(t).encode()).hexdigest()[:12]
+    d = re.sub(r"id='[^']*'", "id='_'", ast.dump(node))
+    return hashlib.sha1(d.encode()).hexdigest()[:12]
+
+
+def _clone(node):
+    """deep copy of an AST by its fields and positions only (analysis attributes such as `_parent` are not followed)"""
+    if isinstance(node, list):
+        return [_clone(x) for x in node]
+    if not isinstance(node, ast.AST):
+        return node
+    new = type(node)()
+    for f in node._fields:
+        if hasattr(node, f):
+            setattr(new, f, _clone(getattr(node, f)))
+    for a in ("lineno", "col_offset", "end_lineno", "end_col_offset"):
+        if hasattr(node, a):
+            setattr(new, a, getattr(node, a))
+    return new
 
 
 def _functions(tree, prefix):
@@ -71,17 +81,35 @@ def _all_functions(tree, prefix):
     yield from rec(tree.body, prefix)
 
 
+def _empty_inits(fn):
+    """names that the function binds to an empty container (`x = []`, `x = OrderedDict()`): containers filled by loops"""
+    out = set()
+    for n in ast.walk(fn):
+        if isinstance(n, ast.Assign) and len(n.targets) == 1 and isinstance(n.targets[0], ast.Name):
+            v = n.value
+            if (isinstance(v, (ast.List, ast.Set, ast.Tuple)) and not v.elts) or (isinstance(v, ast.Dict) and not v.keys) or \
+                    (isinstance(v, ast.Call) and isinstance(v.func, ast.Name) and not v.args and not v.keywords and
+                     v.func.id in ("list", "dict", "set", "OrderedDict")):
+                out.add(n.targets[0].id)
+    return out
+
+
 def reference_facts(tree, modname):
     """facts recorded from the reference tree (tools/gen_canon.py)"""
-    funcs, comps, digests = [], {}, {}
+    funcs, comps, digests, loopbuilt, ncomps = [], {}, {}, {}, {}
     for q, fn in _all_functions(tree, modname):
         funcs.append(q)
         digests[q] = fn_digest(fn)
+        lb = sorted(_empty_inits(fn))
+        if lb:
+            loopbuilt[q] = lb
+        ncomps[q] = sum(1 for n in ast.walk(fn)
+                        if isinstance(n, (ast.ListComp, ast.SetComp, ast.DictComp, ast.GeneratorExp)))
         fps = sorted({comp_fingerprint(n) for n in ast.walk(fn)
                       if isinstance(n, (ast.ListComp, ast.SetComp, ast.DictComp, ast.GeneratorExp))})
         if fps:
             comps[q] = fps
-    return {"functions": funcs, "comps": comps, "digests": digests}
+    return {"functions": funcs, "comps": comps, "digests": digests, "loopbuilt": loopbuilt, "ncomps": ncomps}
 
 
 # ---------------------------------------------------------------------------------------------- helpers
@@ -156,7 +184,7 @@ class _Subst(ast.NodeTransformer):
 
     def visit_Name(self, node):
         if node.id in self.mapping and isinstance(node.ctx, ast.Load):
-            return copy.deepcopy(self.mapping[node.id])
+            return _clone(self.mapping[node.id])
         if node.id in self.mapping and isinstance(self.mapping[node.id], ast.Name):
             node.id = self.mapping[node.id].id
         return node
@@ -463,9 +491,12 @@ class _RetToBreak(ast.NodeTransformer):
 
 def _inline_helpers(tree, modname, ref_funcs, stats):
     helpers = {}
+    ref_names = _all_ref_names()
     for q, fn, container, cls in _functions(tree, modname):
         if q in ref_funcs:
             continue
+        if fn.name.startswith("__") or fn.name in ref_names:
+            continue      # a new special method or a new override of an existing name is called implicitly / dynamically
         h = _Helper(q, fn, container, cls)
         if h.ok:
             helpers[q] = h
@@ -479,6 +510,7 @@ def _inline_helpers(tree, modname, ref_funcs, stats):
                 if h.fn is fn:
                     continue
                 if _inline_into(fn, cls, h, stats):
+                    h.inlined = getattr(h, "inlined", 0) + 1
                     changed = True
         if not changed:
             break
@@ -493,11 +525,24 @@ def _inline_helpers(tree, modname, ref_funcs, stats):
                 still = True
             if isinstance(n, ast.Attribute) and n.attr == name and h.cls is not None and not _inside(n, h.fn, tree):
                 still = True
-        if not still and h.fn in h.container:
+        if not still and getattr(h, "inlined", 0) and h.fn in h.container:
             h.container.remove(h.fn)
             stats["removed_helpers"] = stats.get("removed_helpers", 0) + 1
             if h.cls is not None and not h.cls.body:
                 h.cls.body.append(ast.Pass())
+
+
+_REF_NAMES = None
+
+
+def _all_ref_names():
+    global _REF_NAMES
+    if _REF_NAMES is None:
+        _REF_NAMES = set()
+        for facts in canon._load().get("__ref__", {}).values():
+            for q in facts.get("functions", []):
+                _REF_NAMES.add(q.split(".")[-1])
+    return _REF_NAMES
 
 
 def _inside(node, fn, tree):
@@ -515,7 +560,7 @@ def _fresh(name, taken):
 
 def _prepare_body(h, bound, fn, keep=()):
     """copy of the helper body with parameters substituted and colliding locals renamed -> (prefix stmts, body)"""
-    body = copy.deepcopy(h.body)
+    body = _clone(h.body)
     holder = ast.Module(body=body, type_ignores=[])
     locals_h = _bound_names(ast.FunctionDef(name="_", args=h.fn.args, body=body, decorator_list=[]))
     assigned_params = locals_h & set(bound)
@@ -531,7 +576,7 @@ def _prepare_body(h, bound, fn, keep=()):
             uses = sum(1 for n in ast.walk(holder) if isinstance(n, ast.Name) and n.id == p)
             if p in assigned_params or uses > 1:
                 nm = p if p not in taken - {p} and p not in _names_used(fn) else _fresh(p, taken | set(ren))
-                prefix.append(ast.Assign(targets=[ast.Name(id=nm, ctx=ast.Store())], value=copy.deepcopy(a)))
+                prefix.append(ast.Assign(targets=[ast.Name(id=nm, ctx=ast.Store())], value=_clone(a)))
                 if nm != p:
                     ren[p] = ast.Name(id=nm, ctx=ast.Load())
                 continue
@@ -558,7 +603,7 @@ def _inline_into(fn, cls, h, stats):
                 b = h.matches(node, cls)
                 if b is None:
                     return node
-                e = _Subst(b).visit(copy.deepcopy(h.expr))
+                e = _Subst(b).visit(_clone(h.expr))
                 stats["inlined_helper_calls"] = stats.get("inlined_helper_calls", 0) + 1
                 T.did = True
                 return _loc(ast.copy_location(e, node), node)
@@ -655,8 +700,14 @@ def _try_stmt(s, fn, cls, h):
 
 # ---------------------------------------------------------------------------------------------- N3 comprehensions
 
-def _desugar_comps(fn, ref_fps, stats):
+def _desugar_comps(fn, ref_fps, stats, loopbuilt=frozenset(), ref_ncomps=0):
+    """A comprehension is turned back into a loop only where the reference had a loop: its fingerprint is not a reference
+    one AND it fills a name that the reference filled by a loop (`x = []` ... append), or - for the forms without a name
+    (`return [..]`, `return all(..)`, `x.extend(..)`) - the function has more comprehensions than the reference had.
+    A comprehension that a change merely modified stays a comprehension (the rules written for it must see it)."""
     taken = _names_used(fn)
+    n_now = sum(1 for n in ast.walk(fn) if isinstance(n, (ast.ListComp, ast.SetComp, ast.DictComp, ast.GeneratorExp)))
+    surplus = n_now > ref_ncomps
 
     def loops(comp, leaf_stmt, like):
         """nest the generators of comp around leaf_stmt"""
@@ -668,7 +719,7 @@ def _desugar_comps(fn, ref_fps, stats):
         return body
 
     def _store(t):
-        t = copy.deepcopy(t)
+        t = _clone(t)
         for n in ast.walk(t):
             if isinstance(n, (ast.Name, ast.Tuple, ast.List, ast.Starred)):
                 n.ctx = ast.Store()
@@ -719,7 +770,7 @@ def _desugar_comps(fn, ref_fps, stats):
         """-> replacement statement list or None"""
         val, mk_init, mk_leaf, tail = None, None, None, []
         name = None
-        if isinstance(s, ast.Return) and isinstance(s.value, ast.Call) and isinstance(s.value.func, ast.Name) and \
+        if surplus and isinstance(s, ast.Return) and isinstance(s.value, ast.Call) and isinstance(s.value.func, ast.Name) and \
                 s.value.func.id in ("all", "any") and len(s.value.args) == 1 and not s.value.keywords and \
                 isinstance(s.value.args[0], ast.GeneratorExp) and is_new(s.value.args[0]) and \
                 not collides(s.value.args[0], s):
@@ -732,12 +783,14 @@ def _desugar_comps(fn, ref_fps, stats):
                 [ast.copy_location(ast.Return(value=ast.Constant(value=is_all)), s)]
         if isinstance(s, ast.Assign) and len(s.targets) == 1 and isinstance(s.targets[0], ast.Name):
             name, val = s.targets[0].id, s.value
+            if name not in loopbuilt:
+                return None
         elif isinstance(s, ast.Return) and s.value is not None:
             name, val = "_hsa_result", s.value
-            if name in taken:
+            if name in taken or not surplus:
                 return None
             tail = [ast.copy_location(ast.Return(value=ast.Name(id=name, ctx=ast.Load())), s)]
-        elif isinstance(s, ast.Expr) and isinstance(s.value, ast.Call) and isinstance(s.value.func, ast.Attribute) and \
+        elif surplus and isinstance(s, ast.Expr) and isinstance(s.value, ast.Call) and isinstance(s.value.func, ast.Attribute) and \
                 s.value.func.attr == "extend" and len(s.value.args) == 1 and \
                 isinstance(s.value.args[0], (ast.ListComp, ast.GeneratorExp)) and is_new(s.value.args[0]) and \
                 not collides(s.value.args[0], s):
@@ -853,7 +906,6 @@ def _inline_locals(fn, q, ref_locals, stats):
     if not new:
         return
     _set_parents(fn)
-    fn._parent = None
     changed = True
     rounds = 0
     while changed and rounds < 4:
@@ -948,6 +1000,24 @@ def _inline_one_local(fn, g, nm, stats):
         # nothing rebinds a path that E reads (a store deeper than the path mutates the same object: fine)
         if {p for p in _paths(E) if "." in p or "[" in p} & stored_paths:
             return False
+        # `d[k]` on a defaultdict inserts k: moving it from the definition to the uses changes what a later `k in d`
+        # sees.  Unless the container is known to be a plain dict / list, a subscript is not moved when the function
+        # also asks the container about its keys.
+        for sub in [x for x in ast.walk(E) if isinstance(x, ast.Subscript)]:
+            root = sub.value
+            while isinstance(root, ast.Subscript):
+                root = root.value
+            rtxt = ast.unparse(root)
+            if _known_plain_container(fn, rtxt):
+                continue
+            for n in _own_walk(fn):
+                if isinstance(n, ast.Compare) and any(isinstance(o, (ast.In, ast.NotIn)) for o in n.ops) and \
+                        any(ast.unparse(c).startswith(rtxt) for c in n.comparators):
+                    return False
+                if isinstance(n, ast.Call) and isinstance(n.func, ast.Attribute) and \
+                        n.func.attr in ("get", "keys", "items", "values", "__contains__") and \
+                        ast.unparse(n.func.value).startswith(rtxt):
+                    return False
         if has_call:
             # the call moves to its only use: require the same block and nothing with an effect in between, other than
             # sibling definitions of explaining locals
@@ -977,7 +1047,7 @@ def _inline_one_local(fn, g, nm, stats):
     for st, us in by_def.values():
         for u in us:
             p = u._parent
-            rep = copy.deepcopy(st.value)
+            rep = _clone(st.value)
             for f_, v in ast.iter_fields(p):
                 if v is u:
                     setattr(p, f_, rep)
@@ -997,6 +1067,22 @@ def _inline_one_local(fn, g, nm, stats):
                 blk.append(ast.copy_location(ast.Pass(), st))
     stats["inlined_locals"] = stats.get("inlined_locals", 0) + 1
     return True
+
+
+def _known_plain_container(fn, path):
+    """the container reached by `path` (`self._context`, `indexes`) is bound to a dict / list display or constructor
+    somewhere in the enclosing module (so it is not a defaultdict)"""
+    mod = fn
+    while getattr(mod, "_parent", None) is not None:
+        mod = mod._parent
+    for n in ast.walk(mod):
+        if isinstance(n, ast.Assign) and any(ast.unparse(t) == path for t in n.targets):
+            v = n.value
+            if isinstance(v, (ast.Dict, ast.List, ast.DictComp, ast.ListComp, ast.Tuple)):
+                return True
+            if isinstance(v, ast.Call) and isinstance(v.func, ast.Name) and v.func.id in ("dict", "list", "OrderedDict"):
+                return True
+    return False
 
 
 def canon_mutators():
@@ -1039,10 +1125,15 @@ def apply(modname, tree):
     ref_funcs = set(ref.get("functions", []))
     _inline_helpers(tree, modname, ref_funcs, stats)
     ref_locals = table.get(modname, {})
+    for n in ast.walk(tree):
+        for c in ast.iter_child_nodes(n):
+            c._parent = n
+    tree._parent = None
     for q, fn in list(_all_functions(tree, modname)):
         if q not in ref_funcs or ref.get("digests", {}).get(q) == fn_digest(fn):
             continue          # new function (analysed as written) / unchanged function (nothing to undo)
-        _desugar_comps(fn, set(ref.get("comps", {}).get(q, [])), stats)
+        _desugar_comps(fn, set(ref.get("comps", {}).get(q, [])), stats,
+                       loopbuilt=frozenset(ref.get("loopbuilt", {}).get(q, [])), ref_ncomps=ref.get("ncomps", {}).get(q, 0))
         _inline_locals(fn, q, ref_locals, stats)
     ast.fix_missing_locations(tree)
     return stats
